@@ -149,13 +149,13 @@ int main(int argc, char** argv)
 	// The first NFIXB cases come from a fixed stream (independent of the seed) and are all bowls: the distance clause is decided on them,
 	// so that the cases listed as known findings are identified individually (field "case"); seeded cases add descent/consistency checks.
 	int NFIXB = quick ? 400 : 2000;
-	int nn = NFIXB + (quick ? 300 : 6000);
+	int nn = NFIXB + (quick ? 1200 : 12000);
 	Rng gfix(11235813), &gseed = g;
 	for(int i = 0; i < nn; i++)
 	{
 		Rng& g = i < NFIXB ? gfix : gseed;
 		int dim = (int)g.range(1, 6), overload = i % 3;
-		bool bowl = i < NFIXB || (i % 5 != 4);
+		bool bowl = i < NFIXB || (i % 2 == 0);
 		bool judged = i < NFIXB;
 		// strictly convex quadratic f0 + 1/2 sum lam_k (q_k . (x - c))^2 with an orthonormal frame from Gram-Schmidt
 		std::vector<std::vector<double>> Q(dim, std::vector<double>(dim));
@@ -187,6 +187,7 @@ int main(int argc, char** argv)
 		}
 		double f0 = (g.coin() ? 1 : -1) * g.logu(0.1, 10);
 		double w  = g.uni(1, 5);
+		int mm	  = i < NFIXB ? 0 : (int)g.range(0, 2);	   // (the fixed stream must stay as it is: its failing cases are listed)
 		auto f = [&](std::vector<double> x) {
 			double sq = 0;
 			for(int a = 0; a < dim; a++)
@@ -197,7 +198,23 @@ int main(int argc, char** argv)
 				sq += 0.5 * lam[a] * pr * pr;
 			}
 			if(!bowl)
-				sq += std::sin(w * (x[0] - c[0])) * lmin;	 // multimodal: only descent and consistency are claimed
+			{	// multimodal (only descent and consistency are claimed): a ripple on the bowl, Rastrigin or Himmelblau -- rough enough for shrink steps
+				if(mm == 0)
+					sq += std::sin(w * (x[0] - c[0])) * lmin;
+				else if(mm == 1)
+				{
+					sq = 10.0 * dim;
+					for(int k = 0; k < dim; k++)
+						sq += (x[k] - c[k]) * (x[k] - c[k]) - 10.0 * std::cos(6.283185307179586 * (x[k] - c[k]));
+				}
+				else
+				{
+					double X = x[0] - c[0], Y = dim > 1 ? x[1] - c[1] : 1.0;
+					sq = (X * X + Y - 11) * (X * X + Y - 11) + (X + Y * Y - 7) * (X + Y * Y - 7);
+					for(int k = 2; k < dim; k++)
+						sq += std::fabs(x[k] - c[k]) * (1.5 + std::cos(5.0 * x[k]));
+				}
+			}
 			return f0 + sq;
 		};
 		double ftol = g.logu(1e-12, 1e-3), delta = g.logu(1e-3, 1e3);
@@ -207,6 +224,20 @@ int main(int argc, char** argv)
 		std::vector<double> deltas(dim);
 		for(int k = 0; k < dim; k++)
 			deltas[k] = overload == 0 ? delta : delta * g.logu(0.3, 3) * (g.coin() ? 1 : -1);
+		if(!bowl && i % 4 != 1)
+		{	// the regime in which shrink steps occur: simplices of the size of the ripples
+			ftol = 1e-8;
+			for(int k = 0; k < dim; k++)
+			{
+				start[k]  = c[k] + g.uni(-4, 4);
+				deltas[k] = g.uni(0.3, 3.0) * (g.coin() ? 1 : -1);
+			}
+			if(overload == 0)
+				delta = deltas[0];
+			if(overload == 0)
+				for(int k = 0; k < dim; k++)
+					deltas[k] = delta;
+		}
 		std::vector<std::vector<double>> pp(dim + 1, start);
 		for(int k = 0; k < dim; k++)
 			pp[k + 1][k] += deltas[k];
